@@ -87,6 +87,18 @@ CASES = [
     ("m-c11-raise-other", "C11", "fire", "xdis/load.py", "                raise ImportError(\"This smells like Pyston which is not supported.\")", "                raise ValueError(\"This smells like Pyston which is not supported.\")", "raise:"),
     ("m-c11-eval", "C11", "fire", "xdis/unmarshal.py", "        s = self.fp.read(strsize)\n        return self.r_ref(float(s), save_ref)", "        s = self.fp.read(strsize)\n        return self.r_ref(eval(s), save_ref)", "sink:builtin:eval"),
     ("m-c11-spin", "C11", "fire", "xdis/unmarshal.py", "        for j in range(0, size):\n            md = int(unpack(\"<h\", self.fp.read(2))[0])", "        md = int(unpack(\"<h\", self.fp.read(2))[0])\n        for j in range(0, size):", "reads-every-iteration"),
+    ("m-c11-read-negative", "C11", "fire", "xdis/marsh.py", "def _read(self, n):\n    if n < 0:\n        raise ValueError(\"bad marshal data (negative size)\")\n", "def _read(self, n):\n", "cursor-store"),
+    ("s-c11-read-combined-check", "C11", "silent", "xdis/marsh.py", "def _read(self, n):\n    if n < 0:\n        raise ValueError(\"bad marshal data (negative size)\")\n    pos = self.bufpos\n    newpos = pos + n\n    if newpos > len(self.bufstr):",
+     "def _read(self, n):\n    pos = self.bufpos\n    newpos = pos + n\n    if n < 0 or newpos > len(self.bufstr):", ""),
+    ("m-c11-read1-noadvance", "C11", "fire", "xdis/marsh.py", "    ret = self.bufstr[self.bufpos]\n    self.bufpos += 1\n    return ret", "    ret = self.bufstr[self.bufpos]\n    return ret", "advances"),
+    ("m-c11-prealloc-list", "C11", "fire", "xdis/unmarshal.py", "        ret = self.r_ref(list(), save_ref)\n        while n > 0:\n            ret += (self.r_object(bytes_for_s=bytes_for_s),)\n            n -= 1\n        return ret",
+     "        ret = self.r_ref([None] * n, save_ref)\n        for j in range(n):\n            ret[j] = self.r_object(bytes_for_s=bytes_for_s)\n        return ret", "repeat:"),
+    ("m-c11-prealloc-buffer", "C11", "fire", "xdis/unmarshal.py", "        strsize = unpack(\"<i\", self.fp.read(4))[0]\n        interned = compat_str(self.fp.read(strsize))", "        strsize = unpack(\"<i\", self.fp.read(4))[0]\n        buf = bytearray(strsize)\n        self.fp.readinto(buf)\n        interned = compat_str(bytes(buf))", "sized-buffer"),
+    ("s-c11-bounded-prealloc", "C11", "silent", "xdis/unmarshal.py", "        ret = self.r_ref(list(), save_ref)\n        while n > 0:\n            ret += (self.r_object(bytes_for_s=bytes_for_s),)\n            n -= 1\n        return ret",
+     "        if n > 1 << 20:\n            raise ValueError(\"list too long\")\n        ret = self.r_ref([None] * n, save_ref)\n        del ret[:]\n        while n > 0:\n            ret += (self.r_object(bytes_for_s=bytes_for_s),)\n            n -= 1\n        return ret", ""),
+    ("m-c11-jython-suffix", "C11", "fire", "xdis/magics.py", "    version = re.sub(r\"(pypy|dropbox)$\", \"\", orig_version)", "    version = re.sub(r\"(pypy|dropbox|Graal|Jython|Pyston)$\", \"\", orig_version)", ":exits"),
+    ("m-c11-dict-noread", "C11", "fire", "xdis/marsh.py", "        d = {}\n        while 1:\n            key = self.load()\n            if key is _NULL:\n                break\n            value = self.load()\n            d[key] = value\n        return d",
+     "        d = {}\n        key = self.load()\n        value = self.load()\n        while 1:\n            if key is _NULL:\n                break\n            d[key] = value\n        return d", "advances-every-iteration"),
     ("m-c12-print", "C12", "fire", "xdis/cross_dis.py", "    if opc.version_tuple < (3, 10):\n        return findlabels_pre_310(code, opc)", "    if opc.version_tuple < (3, 10):\n        print(\"pre-310\")\n        return findlabels_pre_310(code, opc)", "stdout:"),
     ("m-c12-skip", "C12", "fire", "xdis/bytecode.py", "            if instr.opname == \"CACHE\" and asm_format not in (", "            if instr.opname in (\"CACHE\", \"NOP\") and asm_format not in (", "exactly-once"),
     ("m-c12-offset-col", "C12", "fire", "xdis/instruction.py", "            fields.append(repr(self.offset).rjust(4))", "            fields.append(repr(self.arg).rjust(4))", "offset-column"),
